@@ -58,6 +58,16 @@ D8_KEY = "D8:batched-eigen-repeated-nonaxis"
 N1_KEY = "C09-N1:rate-sensitive-rootfind-budget-exhausted"
 N2_KEY = "C09-N2:rootfind-tolerance-below-float-spacing"
 N3_KEY = "C09-N3:absolute-zero-strain-guard"
+N4_KEY = "C09-N4:return-bracket-below-float-resolution"
+
+
+def _ri_nan_key(sig):
+    """Rate-independent non-finite result: N4 when the library's bracket spans <= 8 floats of eqps, else N2 (fixed)."""
+    if not sig.get("match"):
+        return None
+    if sig.get("bracket_floats", 1e9) <= 8.0:
+        return N4_KEY
+    return N2_KEY if sig.get("unrepresentable") else None
 GUARD_KINDS = ["monotonic", "nonproportional", "reversing", "at_yield"]
 HARDS = [("linear", "lin"), ("voce", "voce"), ("power", "pow")]
 KINS = ["large", "small"]
@@ -303,7 +313,8 @@ def _check_step(res, case, law, fns, k, H, st_old, dt, st_new, tag, info, acc):
         res.bound("isochoric_detFp", ddet, 1e-13 * (k + 1) * kap, ctx)
         if not (ddet < 1e-3) or not (_norm2(pl_new) < 1e6):
             return None     # not a usable plastic distortion any more (violation recorded): the history ends here
-        condp = _norm2(pl_new) * _norm2(onp.linalg.inv(pl_new))
+        # conditioning of the elastic strain: Fe = F Fp^-1 is formed from factors that may be much larger than Fe itself
+        condp = max(_norm2(pl_new), _norm2(tq["F"])) * _norm2(onp.linalg.inv(pl_new))
     else:
         # rounding bound: tr(N) of the computed flow direction is ~ eps*(|tr Ee|/3 + |Ee|)/|dev Ee| (cancellation when the
         # deviator is formed), accumulated over the plastic steps of this history; safety factor 16
@@ -334,7 +345,7 @@ def _check_step(res, case, law, fns, k, H, st_old, dt, st_new, tag, info, acc):
     # resolution of the state: one float spacing of eqps changes the residual by (3 mu + Y') * ulp(eqps); when the yield
     # strain is tiny and eqps large this exceeds the solver tolerance and no representable eqps can do better
     res_round = (3 * mu + float(slope)) * float(onp.spacing(max(e_new, 1e-300)))
-    tolY += res_round
+    tolY += res_round + 16 * ref.EPS * (abs(mises_state) + abs(Y_hi))      # + rounding of the compared stresses themselves (Y >> Y0 after strong hardening)
     # large kinematics: the eigenvectors of a trial Ce with nearly repeated eigenvalues (relative gap g, here ~ the elastic
     # strain differences, i.e. ~ the yield strain) are accurate to ~eps/g only (conditioning of the eigenvectors; documented
     # for the library's tensor functions as error ~ eps/gap); through them the whole log strain, including its volumetric
@@ -360,7 +371,7 @@ def _check_step(res, case, law, fns, k, H, st_old, dt, st_new, tag, info, acc):
     if not (math.isfinite(W_old) and onp.all(onp.isfinite(P_old))):
         # the pre-commit energy/stress is not finite although the state is: same root-finder failure inside the energy
         sig = ref.rootfind_budget_signature(law, trial, e_old, dt, noise=tolY)
-        mech = (N1_KEY if rate else N2_KEY) if (sig["match"] and (rate or sig["unrepresentable"])) else None
+        mech = (N1_KEY if sig["match"] else None) if rate else _ri_nan_key(sig)
         res.checks += 1
         res.count("nonfinite_energy_precommit")
         res.violate("finite_energy_precommit" + ("[%s class]" % mech.split(":")[0][4:] if mech else ""), dict(ctx, W_old=W_old, rootfind=sig), mech)
@@ -381,12 +392,12 @@ def _check_step(res, case, law, fns, k, H, st_old, dt, st_new, tag, info, acc):
             # surface to rounding, the library re-yields by rounding noise, and the residual tolerance is below one float
             # spacing of eqps so that the root finder stagnates) -- structural signature from the reference model.
             sig = ref.rootfind_budget_signature(law, mises_state, e_new, dt, noise=tolY)
-            mech = N2_KEY if (sig["match"] and sig["unrepresentable"]) else None
+            mech = _ri_nan_key(sig)
             res.checks += 1
             res.count("nonfinite_at_committed_state")
             if mech:
-                res.count("nonfinite_at_committed_state_N2")
-            res.violate("finite_at_committed_state" + ("[N2 class]" if mech else ""),
+                res.count("nonfinite_at_committed_state_" + mech[4:6])
+            res.violate("finite_at_committed_state" + ("[%s class]" % mech[4:6] if mech else ""),
                         dict(ctx, W_new=W_new, reupdate_finite=bool(onp.all(onp.isfinite(st2))), rootfind=sig, yield_strain=Y0 / (3 * mu)), mech)
             return {"repeated_nonaxis": False, "min_gap": None, "skip_batched": True}
         m_lib = ref.mises_of_stress(kin, P_new, H)
@@ -530,11 +541,11 @@ def run_case(case):
                 sig = ref.rootfind_budget_signature(law, trial_i, e_old_i, dts[i], noise=noise_i)
                 mech = None
                 if sig["match"] and onp.all(onp.isnan(new[i])):
-                    mech = N1_KEY if case["rate"] else (N2_KEY if sig["unrepresentable"] else None)
+                    mech = N1_KEY if case["rate"] else _ri_nan_key(sig)
                 if mech:
-                    res.count("nonfinite_states_N1" if mech == N1_KEY else "nonfinite_states_N2")
+                    res.count("nonfinite_states_" + mech[4:6])
                 res.checks += 1
-                res.violate("finite_state" + ("[N1 class]" if mech == N1_KEY else "[N2 class]" if mech else ""),
+                res.violate("finite_state" + ("[%s class]" % mech[4:6] if mech else ""),
                             dict(ctx, state_new=new[i], H=Hn[i], state_old=st[i], trial_minus_flow_over_Y0=(trial_i - float(law.flow_static(e_old_i))) / law.Y0,
                                  hardening_slope=float(law.slope_static(e_old_i)), rootfind=sig), mech)
                 # the step is not committed; the history continues from the last finite state
@@ -555,13 +566,14 @@ def run_case(case):
                 continue
             if mech is None and onp.all(onp.isnan(stB[i])):
                 sig = ref.rootfind_budget_signature(law, trial_i, e_old_i, dts[i], noise=noise_i)
-                if sig["match"] and (case["rate"] or sig["unrepresentable"]):
-                    mech = N1_KEY if case["rate"] else N2_KEY
-                    res.count("nonfinite_batched_N1" if case["rate"] else "nonfinite_batched_N2")
+                m2 = (N1_KEY if sig["match"] else None) if case["rate"] else _ri_nan_key(sig)
+                if m2:
+                    mech = m2
+                    res.count("nonfinite_batched_" + m2[4:6])
             res.count("batched_steps")
             if facts["repeated_nonaxis"]:
                 res.count("batched_steps_in_D8_class")
-            res.bound("batched_equals_single" + ("[D8 class]" if mech == D8_KEY else "[N1 class]" if mech == N1_KEY else "[N2 class]" if mech else ""), dB, tolB, dict(ctx, min_rel_gap=facts["min_gap"], H=Hn[i], state_old=st[i]), mech)
+            res.bound("batched_equals_single" + ("[D8 class]" if mech == D8_KEY else "[%s class]" % mech[4:6] if mech else ""), dB, tolB, dict(ctx, min_rel_gap=facts["min_gap"], H=Hn[i], state_old=st[i]), mech)
             H[i], st[i] = Hn[i], new[i]
     if res.obs.get("plastic_steps", 0) > 0:
         res.nontrivial = True
